@@ -15,10 +15,22 @@ CHECKS = {
    text="For every fragmentation and every error point at once: the only count-returning I/O call on the caller's objects is the one-byte EOF probe compared with 0, all other transfers are read_exact/read_u8/write_all, no Result on the path is unwrapped, dropped or defaulted and no explicit panic construct exists there, and within a chunk the destination is touched only behind the success edge of that chunk's reconstruction. Necessary conditions; that the bytes themselves are right is C01/C02.",
    note="Trusted: std's read_exact/write_all contracts. Scope = generic functions reachable from recreated_zlib_chunks that take the Read/Write parameters (cross-checked against the mono graph).",
    design_ref="DESIGN.md §4 C13"),
+ "C02": dict(category="other", technique="static analysis: value-refined protocol-automaton inclusion (writer Ok-paths vs reader) computed by abstract interpretation of the MIR, plus information-flow rules",
+   text="Decides for all streams at once that every correction-stream operation sequence the analyser can emit on an Ok path is accepted by the reconstructor (contexts, widths, order, constant flags bound to the reader's branches, EOF signalling), that the result is not written under `verify`, and that the input reaches the result only through parse_deflate (suffix independence). Necessary conditions of bit-exactness; the value-level evolution of the shared predictor is not decided.",
+   note="Trusted: the abstract interpreter over-approximates writer paths (Ok/Err and constant propagation only); codec trait methods are the only access to the stream.",
+   design_ref="DESIGN.md §4 C02"),
+ "C08": dict(category="other", technique="static analysis: protocol inclusion on the parameter header with value refinement, code-point exhaustiveness, field-correspondence and single-source flow rules, upper-bound inference for width fit",
+   text="For every parameter vector: the header writer's field sequence is accepted by the reader with conditional fields tied to their code points, every enum code point is mapped, each written field lands in the same field when read, and analysis/reconstruction use exactly the serialised/deserialised value. Necessary for `parameters read back equal the ones written`; that prediction under arbitrary parameters stays decodable is not decided.",
+   note="Trusted: decode_value(n) inverts encode_value(v,n) for v < 2^n (C10).",
+   design_ref="DESIGN.md §4 C08"),
+ "C10": dict(category="other", technique="static analysis: sibling-agreement rules on canonical origin descriptors of call arguments, dominator (must-pass-through) rules for the default-run flush",
+   text="Encoder and decoder halves of the correction codec use the same context arrays, indexed by the same enum argument, with paired CABAC primitives in the same order and with the same count operands; every encode flushes a pending default run first, finish flushes before closing, decoders refill before reading. Thin but necessary conditions of losslessness for every operation sequence; the exponent/mantissa arithmetic and the arithmetic coder's adaptive state are not decided.",
+   note="Trusted: the cabac crate's primitive pairs are inverse given equal contexts and counts.",
+   design_ref="DESIGN.md §4 C10"),
 }
 _PENDING = "static rule set designed in DESIGN.md §4 but not implemented yet in this round; not claimed until its check runs"
 NA = {
  "C09": "aggregate modelling quality relative to another build over an input distribution; no clause of it is visible in the shape of the code (every candidate structural rule would also fire on edits that improve modelling) — declined for static analysis, see DESIGN.md §4 C09",
 }
-for _p in ["C01","C02","C03","C04","C05","C06","C07","C08","C10"]:
+for _p in ["C01","C03","C04","C05","C06","C07"]:
     NA[_p] = _PENDING
